@@ -56,6 +56,10 @@ claim("C13",
       "interprocedural forward taint of client-nullable pointers (JSON null elements / absent pointer fields, absent protobuf sub-messages and unset oneofs) from every entry point through calls, closures, variadic packing, append and internal holder structs, with dominance-based nil-test kills (same value, same field path, closure-creation site, validating loops), goroutine severity; herodot status resolution of every error returned/written on the failure branch of request-text parsers and of re-wrapped mapper errors; finite-domain evaluation of page-size normalisation; termination certificates for request-driven recursions",
       "Decides the absence of request-controlled nil dereferences, 4xx classification of parse and mapping failures, page-size normalisation and bounded recursion on request input; does not decide state-unchanged-on-4xx or exhaustion. Right level: whether a nullable pointer is tested before use and which status an error value carries are dataflow facts.")
 
+claim("C14",
+      "inferred lock discipline (fields written under a mutex must always be accessed under it, caller-holds and constructor exemptions, re-entrancy); reachability-based audit of unsynchronised lazy getters against the sequential set-up of the first server; per-iteration-index check of goroutine closure writes; doneCh-dominance of result reads; escape-then-write reachability for objects handed to sub-checks; placement of visited-set installers below a single check; fresh decode targets",
+      "Decides lock discipline and the sharing shapes that keep per-request state private (visited sets, result slots, handed-over tuples, decode targets); does not decide general data-race freedom or result equality under concurrency. Right level: which lock dominates which access and which object escapes where are static scoping facts.")
+
 for p in ["C04","C05","C06","C07","C08","C09","C11","C12","C13","C14","C16","C18","C19"]:
     na(p, NOTBUILT)
 na("C10", "semantic equivalence between the parser's output and TypeScript's grammar over all programs: precedence/associativity is not a code shape every correct parser shares; no sound structural necessary condition found (and the property is known to be violated: a||b&&c parses as (a||b)&&c), so a static green light would be misleading")
